@@ -4,7 +4,7 @@
 From Coq Require Import String Ascii List Bool ZArith NArith Lia.
 From NRI Require Import Model.Proto.
 Import ListNotations.
-Open Scope N_scope.
+Local Open Scope N_scope.
 
 (* ------------------------------------------------------------------ varints *)
 
